@@ -6,6 +6,7 @@ package main
 
 import (
 	"fmt"
+	"os"
 	"reflect"
 	"strings"
 	"time"
@@ -883,5 +884,16 @@ func replay(c *hx.Ctx, key string) []hx.Violation {
 }
 
 func main() {
-	hx.Main(&hx.Spec{Engine: "buildx", JobTimeout: 90 * time.Second, Levels: map[string]string{"C19": "model_checking", "C08": "model_checking"}, Plan: plan, Replay: replay})
+	// the watchdog only has to tell a hang from work: thorough soup jobs are ~40 s of work each on an idle
+	// machine and several times that next to other load
+	jt := 90 * time.Second
+	if os.Getenv("VERIF_TIER") == "thorough" {
+		jt = 15 * time.Minute
+	}
+	for i, a := range os.Args {
+		if a == "thorough" && i > 0 && strings.HasSuffix(os.Args[i-1], "tier") {
+			jt = 15 * time.Minute
+		}
+	}
+	hx.Main(&hx.Spec{Engine: "buildx", JobTimeout: jt, Levels: map[string]string{"C19": "model_checking", "C08": "model_checking"}, Plan: plan, Replay: replay})
 }
